@@ -16,7 +16,7 @@ Contents
   `hash_add_unrelated`, `hash_binary_reindex`;
 * locality (any `H`): `hash_local`;
 * sensitivity: `hash_field_sensitive_self`, `hash_field_sensitive_descendant` (+ `_top` for `hash`),
-  `hash_shared_binary_sensitive`, `hash_inputs_kind_or_count_sensitive`,
+  `hash_shared_binary_sensitive`, `hash_inputs_sensitive_partial`,
   `hash_self_sensitive_injective`;
 * what the pre-image does **not** capture (kernel-checked witnesses; the clause "ordered inputs" of
   the property is false on the code — known defect F14): `hash_blind_to_input_order`,
@@ -250,12 +250,25 @@ theorem hash_shared_binary_sensitive_descendant (H : Bytes → Bytes) (n : Nat) 
   exact hashN_ne_of_ancestor H n hH P ⟨P.modules, bins'⟩ r k d md md hd hd hfs
     (by simp only [ownSegs, hsame]) rfl a ha hane hnc
 
-/-- **Number or kinds of inputs** (no assumption on the hash lengths).  The inputs of `x` are
+/-- **Number or kinds of inputs** (no assumption on the hash lengths) — the provable part of the
+clause "ordered inputs".
+
+Full statement of the property (FALSE on the code, hence `_partial`):
+`mx'.inputs ≠ mx.inputs → hashN H (setModule P x {mx with inputs := mx'.inputs}) r (k+1) x ≠ hashN H P r (k+1) x`.
+What is missing, each with a kernel-checked counterexample below and a replayed witness on the real
+code: the order of inputs of the same kind (`hash_blind_to_input_order`, class
+`C06/input-permutation`), the mode of a store input (`hash_blind_to_store_mode`,
+`C06/store-mode-get-vs-deltas`), which already-present ancestor a map input points at
+(`C06/input-retarget`, harness only), and input lists that part at inputs of the same kind whose
+values re-split the same bytes (`hash_unframed_params_value`, `hash_unframed_source_type`).
+Changes of a single params value or source type in place are covered by `hash_field_sensitive_self`.
+
+What is proved:  The inputs of `x` are
 replaced by a list that, after a common prefix, continues with an input of another kind, or stops
 while the old one goes on, or goes on while the old one stops.  Then the hash of `x` changes —
 *whatever* happens to its ancestors.  (Two lists that part at inputs of the **same** kind with
 different values can collide: `hash_unframed_source_type`.) -/
-theorem hash_inputs_kind_or_count_sensitive (H : Bytes → Bytes) (P : Modules) (x : Bytes) (mx : Module)
+theorem hash_inputs_sensitive_partial (H : Bytes → Bytes) (P : Modules) (x : Bytes) (mx : Module)
     (hx : findM P.modules x = some mx) (C R R' : List Input) (hin : mx.inputs = C ++ R) (hd : Diverge R R')
     (r k : Nat) (hnc : NoCollisionAt H P (setModule P x { mx with inputs := C ++ R' }) r k x) :
     hashN H (setModule P x { mx with inputs := C ++ R' }) r (k + 1) x ≠ hashN H P r (k + 1) x := by
@@ -477,10 +490,10 @@ example : hashN id (setModule exP [97] { exA with entrypoint := [122] }) 4 1 [97
       | step h => rw [hs] at h; cases h
       | trans h _ => rw [hs] at h; cases h) 4 0
 
-/-- `hash_inputs_kind_or_count_sensitive` with `H := id`: `c` loses its store input. -/
+/-- `hash_inputs_sensitive_partial` with `H := id`: `c` loses its store input. -/
 example : hashN id (setModule exP [99] { exC with inputs := [.params [118], .map [98]] ++ [] }) 4 1 [99] ≠
     hashN id exP 4 1 [99] :=
-  hash_inputs_kind_or_count_sensitive id exP [99] exC rfl [.params [118], .map [98]] [.store [115] 1] [] rfl
+  hash_inputs_sensitive_partial id exP [99] exC rfl [.params [118], .map [98]] [.store [115] 1] [] rfl
     (.fewer _ _ (by decide)) 4 0 (NoCollisionAt.of_injective (fun _ _ h => h) _ _ _ _ _)
 
 /-- `hash_rename` / `hash_alias_import`: the side conditions hold for `exP` and the prefix `p:`. -/
